@@ -4,7 +4,7 @@
    kernel-checked witnesses that the full statement is false of the code before the repair.
    Statements + `exact`; proofs are in C08/Proofs.v and C08/Flow.v. *)
 From Coq Require Import ZArith List Bool Lia NArith.
-From S2T Require Import Lib.PyStr C08.Model C08.Proofs C08.Flow.
+From S2T Require Import Lib.PyStr C08.Model C08.Proofs C08.Flow C08.Pad.
 Import ListNotations.
 Open Scope N_scope.
 
@@ -218,3 +218,36 @@ Theorem C08_reject_before_yield :
   forall (sk : gs) (n : nat) (o : out), guarded sk = true -> run sk n o -> n = O.
 Proof. exact guarded_sound. Qed.
 Print Assumptions C08_reject_before_yield.
+
+(* ---------------------------------------------------------------- PKCS#7 layer of the AES fallback *)
+(* what decryption strips is exactly what encryption appended, for EVERY plaintext length (in particular
+   lengths that are multiples of the block size, where a whole block of padding is appended) *)
+Theorem C08_pkcs7_roundtrip :
+  forall (bs : nat) (d : bytes), (0 < bs)%nat -> pkcs7_unpad bs (pkcs7_pad bs d) = UOk d.
+Proof. exact unpad_pad. Qed.
+Print Assumptions C08_pkcs7_roundtrip.
+
+Theorem C08_pkcs7_full_block :
+  forall (bs : nat) (d : bytes), (0 < bs)%nat -> (List.length d mod bs = 0)%nat ->
+    pkcs7_pad bs d = d ++ repeat (N.of_nat bs) bs.
+Proof. exact pad_full_block. Qed.
+Print Assumptions C08_pkcs7_full_block.
+
+Theorem C08_pkcs7_padded_length :
+  forall (bs : nat) (d : bytes), (0 < bs)%nat -> (List.length (pkcs7_pad bs d) mod bs = 0)%nat.
+Proof. exact pad_length_multiple. Qed.
+Print Assumptions C08_pkcs7_padded_length.
+
+(* a last byte outside 1..block_size is an error, never returned as data *)
+Theorem C08_pkcs7_rejects_bad_byte :
+  forall (bs : nat) (d : bytes), List.length d <> O ->
+    (N.to_nat (last d 0%N) < 1 \/ bs < N.to_nat (last d 0%N))%nat -> pkcs7_unpad bs d = UErr.
+Proof. exact unpad_rejects_bad_byte. Qed.
+Print Assumptions C08_pkcs7_rejects_bad_byte.
+
+Example C08_pkcs7_nonvacuous :
+  pkcs7_unpad 16%nat (repeat 16 16%nat) = UOk [] /\ pkcs7_unpad 16%nat ([1; 2] ++ repeat 14 14%nat) = UOk [1; 2]
+  /\ pkcs7_unpad 16%nat (repeat 7 16%nat ++ repeat 16 16%nat) = UOk (repeat 7 16%nat)
+  /\ pkcs7_unpad 16%nat [5; 17] = UErr /\ pkcs7_unpad 16%nat [3; 3] = UErr.
+Proof. vm_compute. repeat split. Qed.
+Print Assumptions C08_pkcs7_nonvacuous.
